@@ -80,8 +80,22 @@ def shards(tier, seed):
                  "n": 2000} for i in range(32)]
 
 
+LONG_OPTIONS = {"signonetime.py": {"-a": "--app", "-p": "--publickey"},
+                "signapp.py": {"-a": "--app", "-i": "--iteration", "-o": "--output",
+                               "-k": "--key", "-p": "--path", "-g": "--signature"}}
+
+
 def run_main(mod_main, argv):
-    """run a tool's main() in-process: -> (exit code, stdout)"""
+    """run a tool's main() in-process: -> (exit code, stdout).  When run_main.vary holds
+    the case's generator, the command line is spelled as operators spell it: some options
+    in their long form, -v / --verbose added now and then (it only adds output)"""
+    vary = getattr(run_main, "vary", None)
+    if vary is not None:
+        longs = LONG_OPTIONS.get(argv[0], {})
+        argv = [longs[a] if a in longs and vary.random() < 0.3 else a for a in argv]
+        if vary.random() < 0.3:
+            argv = argv + [vary.choice(["-v", "--verbose"])]
+            run_main.verbose_runs = getattr(run_main, "verbose_runs", 0) + 1
     buf = io.StringIO()
     old = sys.argv
     sys.argv = argv
@@ -156,6 +170,7 @@ def run_case(acc, cseed, tmpdir, state):
     import signonetime
     from admin.ledger_utils import compute_app_hash
     rng = random.Random(cseed)
+    run_main.vary = random.Random(cseed ^ 0x5a5a5a)
     case = {"seed": cseed}
     nimg = rng.randint(1, 4)
     images = []
